@@ -325,3 +325,82 @@ func ruleCommittedCopied(c *Check, rule string) {
 		c.Bad(rule, name+"/copy", "SetCommitted does not copy the caller's entries into its own map under its mutex", c.P.Pos(fn.Pos()), nil)
 	}
 }
+
+// ruleShadowCreateMask (C11-R4c): LoadOnce creates a missing shadow DBI with
+// the snapshot's flags masked to MDB_INTEGERKEY.
+func ruleShadowCreateMask(c *Check, rule string) {
+	fn, paths := c.walkFn(rule, fnLoadTxn, WalkConfig{})
+	if paths == nil {
+		return
+	}
+	mask, _ := c.constValue("syncer", "AllowedShadowDBIFlagsMask")
+	n, bad := 0, 0
+	for _, it := range loadIterations(paths) {
+		p := it.p
+		for _, od := range callsOf(p, "(*lmdb.Txn).OpenDBI") {
+			if strings.HasPrefix(od.Args[1], "(const:\"_sync_shadow_\" + ") && strings.Contains(od.Args[2], "const:262144") {
+				n++
+				if !strings.HasSuffix(od.Args[2], " & const:"+mask+"))") && !strings.HasSuffix(od.Args[2], " & const:"+mask+")))") {
+					bad++
+					c.Bad(rule, fnLoadTxn+"/shadow-create-mask", "a shadow DBI is created from a snapshot with flags "+od.Args[2]+": they must be masked to MDB_INTEGERKEY (a shadow DBI must sort like the application DBI and must never be DUPSORT)", evPos(c, od), nil)
+				}
+			}
+		}
+	}
+	if bad == 0 {
+		c.Ok(rule, fnLoadTxn+"/shadow-create-mask", fmt.Sprintf("%d paths creating a shadow DBI from a snapshot mask the flags with AllowedShadowDBIFlagsMask (MDB_INTEGERKEY)", n), c.P.Pos(fn.Pos()))
+	}
+	c.Floor(rule, n, 1, "shadow DBI creations in LoadOnce$1")
+}
+
+// ruleRawReadRestored (C11-R8): readDBI switches the transaction to raw reads
+// for the dump and restores the previous mode on every exit.
+func ruleRawReadRestored(c *Check, rule string) {
+	fn, paths := c.walkFn(rule, fnReadDBI, WalkConfig{Memo: true,
+		KeepEvent: func(e *Event) bool {
+			return e.Kind == "ret" || e.Kind == "defer" || e.Kind == "store" && strings.HasSuffix(e.Addr, ".RawRead") || e.Kind == "call" && strings.Contains(e.Callee, "readDBI$")
+		},
+		KeepAtom: func(a Atom) bool { return false }})
+	if paths == nil {
+		return
+	}
+	txn := param(fn, 1)
+	n, bad := 0, 0
+	for i := range paths {
+		p := &paths[i]
+		set := -1
+		for j, e := range p.Events {
+			if e.Kind == "store" && e.Addr == "&"+txn+".RawRead" && e.Val == "const:true" {
+				set = j
+			}
+		}
+		if set < 0 || p.End != "return" {
+			continue
+		}
+		n++
+		restored := false
+		for _, e := range p.Events[set:] {
+			if e.Kind == "call" && e.Defd && strings.HasPrefix(e.Callee, fnReadDBI+"$") {
+				cl := c.P.Func(e.Callee)
+				if cl != nil {
+					w := Walk(c.P, cl, WalkConfig{})
+					for k := range w.Paths {
+						for _, ce := range w.Paths[k].Events {
+							if ce.Kind == "store" && strings.HasSuffix(ce.Addr, ".RawRead") && ce.Val == "*free:restoreRawRead" {
+								restored = closureBinding(fn, cl, "restoreRawRead") == "alloc:restoreRawRead"
+							}
+						}
+					}
+				}
+			}
+		}
+		if !restored {
+			bad++
+			c.Bad(rule, fnReadDBI+"/rawread-restored", "readDBI leaves the shared transaction in raw-read mode: slices later returned by cursors alias LMDB pages that the same transaction rewrites (the iterating strategies then read garbage)", c.pathPos(p), describe(c, p))
+		}
+	}
+	if bad == 0 {
+		c.Ok(rule, fnReadDBI+"/rawread-restored", fmt.Sprintf("on all %d paths that switch txn.RawRead on, a deferred function restores the saved mode", n), c.P.Pos(fn.Pos()))
+	}
+	c.Floor(rule, n, 1, "paths setting RawRead")
+}
